@@ -364,6 +364,30 @@ func (s *sim) didChange() {
 		m.version++
 		v = m.version
 	}
+	// the mirror must follow the edits whatever the version numbers are: some
+	// clients repeat, lower, zero or omit them
+	var vAny any = v
+	switch s.src.Intn(12, "c18.verfault") {
+	case 8:
+		v = v - 1 - s.src.Intn(3, "c18.verlower") // lower than (or equal to) the previous one
+		vAny = v
+		s.r.Faults["version.non-increasing"]++
+	case 9:
+		v = 0
+		vAny = 0
+		s.r.Faults["version.zero"]++
+	case 10:
+		v = 0
+		vAny = nil // "version": null
+		s.r.Faults["version.null"]++
+	case 11:
+		v = 0
+		vAny = "omit"
+		s.r.Faults["version.omitted"]++
+	}
+	if m != nil {
+		m.version = v
+	}
 	nch := 1
 	if s.src.Intn(5, "c18.multichange") == 4 {
 		nch = 2 + s.src.Intn(2, "c18.nch")
@@ -420,7 +444,11 @@ func (s *sim) didChange() {
 		}
 		m.structured = false
 	}
-	s.notify("textDocument/didChange", map[string]any{"textDocument": map[string]any{"uri": uri, "version": v}, "contentChanges": changes})
+	td := map[string]any{"uri": uri, "version": vAny}
+	if vAny == "omit" {
+		delete(td, "version")
+	}
+	s.notify("textDocument/didChange", map[string]any{"textDocument": td, "contentChanges": changes})
 	if m != nil && !safe {
 		m.known = false
 	}
